@@ -1,16 +1,278 @@
 import KitProofs.Lemmas.CronSched
 /-!
 Property C05 — cron: each job starts once per activation, never early; Stop/Remove are clean.
-Theorems about the model `Kit.CronSched` (lean/KitModel/CronSched.lean); every statement
-quantifies over all schedules `S` and all histories (lists of labels, i.e. all interleavings of
-API calls, clock advances, loop steps, job begins/returns).
+
+Theorems about the model `Kit.CronSched` (lean/KitModel/CronSched.lean).  Every statement
+quantifies over all schedule functions `S` (`S sid t = Schedule.Next(t)` of schedule `sid`) and,
+through `Reach` / `runFrom`, over all histories: every interleaving of Schedule/Remove/Entries/
+Start/Stop calls, clock advances (to, between and across activation instants), steps of the
+scheduler goroutine, job begins and job returns.  Helper lemmas and the invariants are in
+`KitProofs/Lemmas/CronSched.lean`.
+
+Vocabulary: the ghost `log` records every computation of a `Next`
+(`sched id sid t a`: `a = S sid t`, at add time or at (re)start) and every job launch
+(`run id sid a w c`: activation `a` started at a wake whose loop variable `now` was `w`, clock `c`).
+`basis` of a record is the argument the entry's following `Next` is computed from (`t` resp. `w`).
 -/
 namespace Kit.CronSched.C05
 open Kit.CronSched
 
+/-! ### starts_chain -/
+
+/-- `starts_chain`: after every history the log satisfies `ChainOK`: each launch record
+`run id sid a w c` is preceded by a record `p` of the same entry (the first one is a `sched`
+record: `a₀ = nxt(t_add or t_start)`), `a = S sid p.basis` (`a_{k+1} = nxt(w_k)`),
+`a ≠ 0`, `a ≤ w ≤ c` (never early); each `sched id sid t a` has `a = S sid t` and `t` is at
+least the basis of the previous record. -/
+theorem starts_chain (S : Scheds) (t0 : Nat) (h : List Label) (s : State)
+    (hrun : runFrom S (init t0) h = some s) : ChainOK S s.log :=
+  (reach_invB (reach_iff_history.2 ⟨t0, h, hrun⟩)).chain
+
+/-- Unfolding of `ChainOK` for a launch record found anywhere in the log. -/
+theorem starts_chain_run (S : Scheds) (s : State) (hr : Reach S s) (id sid a w c : Nat)
+    (hm : Rec.run id sid a w c ∈ s.log) :
+    a ≠ 0 ∧ a ≤ w ∧ w ≤ c ∧ w ≤ s.clock ∧
+      ∃ older p, older.length < s.log.length ∧ lastRec id older = some p ∧ p.sid = sid ∧
+        a = S sid p.basis := by
+  have hB := reach_invB hr
+  obtain ⟨h1, h2, h3, rest⟩ := chain_run_facts hB.chain hm
+  exact ⟨h1, h2, h3, by simpa [Rec.basis] using hB.basis_le _ hm, rest⟩
+
+/-- Each activation of an entry is started exactly once: the launched activations of one entry,
+newest first, are strictly decreasing (so strictly increasing in time, in particular distinct),
+also across Stop/Start. -/
+theorem starts_exactly_once (S : Scheds) (hS : WB S) (s : State) (hr : Reach S s) (id : Nat) :
+    (acts id s.log).Pairwise (· > ·) ∧ (acts id s.log).Nodup := by
+  have hp := acts_decreasing hS id (reach_invB hr).chain
+  exact ⟨hp, hp.imp (fun h => Nat.ne_of_gt h)⟩
+
+/-- Never early, as observed by the job itself: an outstanding job of activation `a` was launched
+at a wake `w ≥ a`, the clock has reached `w`, and the clock value the job read when it began is
+`≥ w ≥ a`. -/
+theorem never_early (S : Scheds) (s : State) (hr : Reach S s) (j : Job) (hj : j ∈ s.jobs) :
+    j.act ≠ 0 ∧ j.act ≤ j.wake ∧ j.wake ≤ s.clock ∧ ∀ c, j.st = .begun c → j.act ≤ c := by
+  obtain ⟨a, b, c, d⟩ := reach_invJ hr j hj
+  exact ⟨a, b, c, fun c' hc' => Nat.le_trans b (d c' hc')⟩
+
+example : ∃ s, Reach (fun _ t => t + 3) s ∧ s.log.length = 3 ∧ (acts 1 s.log) = [16, 13] :=
+  ⟨_, reach_runFrom (Reach.init 10) [.add 0, .start, .boot, .arm, .advance 13, .wake, .arm,
+      .advance 20, .wake] rfl, by decide, by decide⟩
+
+/-! ### prompt_when_parked, timer_is_min -/
+
+/-- `timer_is_min`: whenever the loop is blocked in its `select`, the entries are ordered by
+`byTime`; without a timer every `Next` is zero; with a timer, `deadline = armedAt + (m - now)`
+where `m` is the least non-zero `Next` (`armedAt` = clock at arming, `now` = the loop variable),
+the timer is unfired exactly while the clock is before the deadline, and a fired timer carries a
+value `≥ deadline`. -/
+theorem timer_is_min (S : Scheds) (s : State) (hr : Reach S s) (tm : Timer)
+    (hpc : s.pc = .parked (some tm)) :
+    SortedBT s.entries ∧ tm.armedAt ≤ s.clock ∧ s.now ≤ tm.armedAt ∧ ∃ e ∈ s.entries, e.next ≠ 0 ∧
+        (∀ x ∈ s.entries, x.next = 0 ∨ e.next ≤ x.next) ∧
+        tm.deadline + s.now = tm.armedAt + e.next ∧
+        (tm.fired = none → s.clock < tm.deadline) ∧ (∀ v, tm.fired = some v → tm.deadline ≤ v) :=
+  reach_timerOK hr (some tm) hpc
+
+/-- Companion of `timer_is_min`: the loop sleeps without a timer only if no entry has a `Next`. -/
+theorem no_timer_only_if_nothing_scheduled (S : Scheds) (s : State) (hr : Reach S s)
+    (hpc : s.pc = .parked none) : ∀ e ∈ s.entries, e.next = 0 :=
+  (reach_timerOK hr none hpc).2
+
+/-- `prompt_when_parked`: if the loop is parked on an unfired timer that was armed with a fresh
+`now` (`now` = clock at arming; always the case when the clock only moves while the loop is
+parked) and the clock is advanced to `t ≥ e.Next ≠ 0`, then that very advance fires the timer,
+and the wake-up it enables starts `e` for activation `e.Next` with `now = t` at clock `t`
+and sets `Prev = e.Next`, `Next = S sid t`. -/
+theorem prompt_when_parked (S : Scheds) (s : State) (hr : Reach S s) (tm : Timer)
+    (hpc : s.pc = .parked (some tm)) (hunf : tm.fired = none) (hfresh : s.now = tm.armedAt)
+    (e : Entry) (he : e ∈ s.entries) (hnz : e.next ≠ 0) (t : Nat) (hclk : s.clock ≤ t)
+    (hdue : e.next ≤ t) :
+    ∃ s1 s2, step S s (.advance t) = some s1 ∧ step S s1 .wake = some s2 ∧
+      runRec t t e ∈ s2.log ∧ launchJob t e ∈ s2.jobs ∧
+      ({ e with prev := e.next, next := S e.sid t } : Entry) ∈ s2.entries := by
+  obtain ⟨hsorted, _, _, m, hm, hmnz, hmin, hd, _, _⟩ := reach_timerOK hr (some tm) hpc
+  have hdl : tm.deadline ≤ t := by
+    rcases hmin e he with h0 | hle
+    · exact absurd h0 hnz
+    · omega
+  have htick : tm.tick t = { tm with fired := some t } := by
+    unfold Timer.tick; simp [hunf, hdl]
+  have hran := wakeLoop_all_due (S := S) (v := t) hsorted e he hnz hdue
+  refine ⟨{ s with clock := t, pc := .parked (some (tm.tick t)) },
+    { s with clock := t, now := t, entries := (wakeLoop S t s.entries).1, pc := .arm,
+             jobs := s.jobs ++ (wakeLoop S t s.entries).2.map (launchJob t),
+             log := (wakeLoop S t s.entries).2.map (runRec t t) ++ s.log }, ?_, ?_, ?_, ?_, ?_⟩
+  · simp only [step, hpc]
+    rw [if_neg (by omega)]
+  · simp only [step, htick]
+  · exact List.mem_append_left _ (List.mem_map_of_mem hran)
+  · exact List.mem_append_right _ (List.mem_map_of_mem hran)
+  · exact wakeLoop_updates hran
+
+example : ∃ s : State, Reach (fun _ t => t + 3) s ∧ ∃ tm, s.pc = .parked (some tm) ∧
+    tm.fired = none ∧ s.now = tm.armedAt ∧ s.entries ≠ [] :=
+  ⟨_, reach_runFrom (Reach.init 10) [.add 0, .start, .boot, .arm] rfl, _, rfl, rfl, rfl, by decide⟩
+
+/-! ### no_start_after_remove, no_start_after_stop -/
+
+/-- `no_start_after_remove`: once `Remove(id)` of an issued id has returned, whatever happens
+afterwards, no record of entry `id` (neither a launch nor a recomputation) is ever added. -/
+theorem no_start_after_remove (S : Scheds) (s s1 s2 : State) (hr : Reach S s) (id : Nat)
+    (hid : id ≤ s.nextID) (hrem : step S s (.remove id) = some s1) (h : List Label)
+    (hrun : runFrom S s1 h = some s2) :
+    ∃ new, s2.log = new ++ s1.log ∧ ∀ r ∈ new, r.id ≠ id := by
+  have hN1 : NoEntry id s1 := by
+    rcases step_remove_inv hrem with ⟨_, _, rfl⟩ | ⟨hr', rfl⟩
+    · exact ⟨hid, by intro e he; simpa using (List.mem_filter.1 he).2, by simp⟩
+    · refine ⟨hid, by intro e he; simpa using (List.mem_filter.1 he).2, ?_⟩
+      intro i sd hpc
+      have := (reach_invA hr).run_pc
+      simp only [hr'] at this
+      simp only [Bool.false_eq_true, ne_eq, false_iff, Decidable.not_not] at this
+      rw [show _ = s.pc from rfl, this] at hpc; cases hpc
+  have hr1 : Reach S s1 := Reach.step _ hr hrem
+  clear hrem
+  induction h generalizing s1 with
+  | nil => simp [runFrom] at hrun; subst hrun; exact ⟨[], rfl, by simp⟩
+  | cons l ls ih =>
+    simp only [runFrom] at hrun
+    cases hl : step S s1 l with
+    | none => simp [hl] at hrun
+    | some s1' =>
+      rw [hl] at hrun
+      obtain ⟨hN', new1, hlog1, hnew1⟩ := noEntry_step (reach_invA hr1) hN1 hl
+      obtain ⟨new2, hlog2, hnew2⟩ := ih s1' hrun hN' (Reach.step _ hr1 hl)
+      refine ⟨new2 ++ new1, by rw [hlog2, hlog1, List.append_assoc], ?_⟩
+      intro r hr'
+      rcases List.mem_append.1 hr' with h' | h'
+      · exact hnew2 r h'
+      · exact hnew1 r h'
+
+/-- `no_start_after_stop`: after `Stop` has returned and until the next `Start`, nothing is
+launched and no `Next` is recomputed: the log does not change, the number of outstanding jobs
+does not grow. -/
+theorem no_start_after_stop (S : Scheds) (s s1 s2 : State) (hr : Reach S s)
+    (hstop : step S s .stop = some s1) (h : List Label) (hns : Label.start ∉ h)
+    (hrun : runFrom S s1 h = some s2) :
+    s2.log = s1.log ∧ s2.jobs.length ≤ s1.jobs.length ∧ s2.pc = .off := by
+  have hoff : s1.pc = .off ∧ s1.running = false := by
+    rcases step_stop_inv hstop with ⟨_, _, rfl⟩ | ⟨hr', rfl⟩
+    · exact ⟨rfl, rfl⟩
+    · have := (reach_invA hr).run_pc
+      simp only [hr'] at this
+      simp only [Bool.false_eq_true, ne_eq, false_iff, Decidable.not_not] at this
+      exact ⟨this, hr'⟩
+  clear hstop
+  induction h generalizing s1 with
+  | nil => simp [runFrom] at hrun; subst hrun; exact ⟨rfl, Nat.le_refl _, hoff.1⟩
+  | cons l ls ih =>
+    simp only [runFrom] at hrun
+    cases hl : step S s1 l with
+    | none => simp [hl] at hrun
+    | some s1' =>
+      rw [hl] at hrun
+      have hne : l ≠ .start := fun he => hns (he ▸ List.mem_cons_self)
+      obtain ⟨a, b, c, d⟩ := off_step hoff.1 hoff.2 hne hl
+      obtain ⟨x, y, z⟩ := ih s1' (fun hm => hns (List.mem_cons_of_mem _ hm)) hrun ⟨a, b⟩
+      exact ⟨x.trans c, Nat.le_trans y d, z⟩
+
+/-! ### stop_ctx_iff_jobs_done -/
+
+/-- `stop_ctx_iff_jobs_done` (only-if): the context returned by a `Stop` becomes done only in a
+step after which no started job is outstanding. -/
+theorem stop_ctx_done_only_when_jobs_done (S : Scheds) (s s' : State) (l : Label) (k : Nat)
+    (hstep : step S s l = some s') (hnot : s.ctxs[k]? ≠ some CtxSt.done)
+    (hdone : s'.ctxs[k]? = some CtxSt.done) : s'.jobs = [] := by
+  cases l with
+  | add sid =>
+    rcases step_add_inv hstep with ⟨_, _, rfl⟩ | ⟨_, rfl⟩ <;> exact absurd hdone hnot
+  | remove id =>
+    rcases step_remove_inv hstep with ⟨_, _, rfl⟩ | ⟨_, rfl⟩ <;> exact absurd hdone hnot
+  | snapshot => obtain ⟨rfl, _⟩ := step_snapshot_inv hstep; exact absurd hdone hnot
+  | start =>
+    rcases step_start_inv hstep with ⟨_, rfl⟩ | ⟨_, rfl⟩ <;> exact absurd hdone hnot
+  | stop =>
+    have app : (s.ctxs ++ [CtxSt.created])[k]? = some CtxSt.done → s.ctxs[k]? = some CtxSt.done := by
+      intro hk
+      rw [List.getElem?_append] at hk
+      split at hk
+      · exact hk
+      · cases hk' : ([CtxSt.created])[k - s.ctxs.length]? with
+        | none => rw [hk'] at hk; cases hk
+        | some c =>
+          rw [hk'] at hk
+          have : c = .created := by simpa using List.mem_of_getElem? hk'
+          subst this; cases hk
+    rcases step_stop_inv hstep with ⟨_, _, rfl⟩ | ⟨_, rfl⟩ <;> exact absurd (app hdone) hnot
+  | advance t =>
+    obtain ⟨_, ⟨tm, hpc, rfl⟩ | ⟨_, rfl⟩⟩ := step_advance_inv hstep <;> exact absurd hdone hnot
+  | boot => obtain ⟨_, rfl⟩ := step_boot_inv hstep; exact absurd hdone hnot
+  | refresh =>
+    rcases step_refresh_inv hstep with ⟨_, rfl⟩ | ⟨_, _, _, rfl⟩ <;> exact absurd hdone hnot
+  | arm => obtain ⟨_, rfl⟩ := step_arm_inv hstep; exact absurd hdone hnot
+  | wake => obtain ⟨_, _, _, _, rfl⟩ := step_wake_inv hstep; exact absurd hdone hnot
+  | jobBegin i => obtain ⟨_, _, _, rfl⟩ := step_jobBegin_inv hstep; exact absurd hdone hnot
+  | jobDone i =>
+    obtain ⟨_, _, _, _, rfl⟩ := step_jobDone_inv hstep
+    dsimp only at hdone ⊢
+    split at hdone
+    · rename_i he; simpa using he
+    · exact absurd hdone hnot
+  | ctxWait k0 =>
+    obtain ⟨_, rfl⟩ := step_ctxWait_inv hstep
+    dsimp only at hdone ⊢
+    rw [List.getElem?_set] at hdone
+    split at hdone
+    · split at hdone
+      · split at hdone
+        · rename_i he; simpa using he
+        · cases hdone
+      · cases hdone
+    · exact absurd hdone hnot
+
+/-- `stop_ctx_iff_jobs_done` (if): in a reachable state with no outstanding job every Stop
+context is done, or its goroutine has not called `Wait` yet and its next step completes it. -/
+theorem stop_ctx_completes_when_jobs_done (S : Scheds) (s : State) (hr : Reach S s)
+    (hj : s.jobs = []) (k : Nat) (c : CtxSt) (hk : s.ctxs[k]? = some c) :
+    c = .done ∨ (c = .created ∧ ∃ s', step S s (.ctxWait k) = some s' ∧ s'.ctxs[k]? = some CtxSt.done) := by
+  cases c with
+  | done => left; rfl
+  | waiting => exact absurd hj (reach_invC hr k hk)
+  | created =>
+    right
+    refine ⟨rfl, { s with ctxs := s.ctxs.set k (if s.jobs.isEmpty then .done else .waiting) },
+      by simp only [step, hk], ?_⟩
+    have hlt : k < s.ctxs.length := by
+      rcases Nat.lt_or_ge k s.ctxs.length with h | h
+      · exact h
+      · rw [List.getElem?_eq_none h] at hk; cases hk
+    simp [hj, hlt]
+
+/-! ### entries_reports_used, restart_recomputes -/
+
+/-- `entries_reports_used`: what `Entries()` reports for a live entry of a running scheduler is
+what the chain uses: `Next = S sid b` where `b` is the basis of the entry's latest record (so,
+by `starts_chain`, the activation of the entry's next launch unless a restart recomputes it), and
+`Prev` is the activation of its latest launch (0 if it was never started). -/
+theorem entries_reports_used (S : Scheds) (s s' : State) (hr : Reach S s)
+    (hsnap : step S s .snapshot = some s') (hrunning : s.running = true) :
+    s' = s ∧ ∀ e ∈ snapshotOf s, e.prev = lastRunAct e.id s.log ∧
+      ∃ r, lastRec e.id s.log = some r ∧ r.sid = e.sid ∧ e.next = S e.sid r.basis := by
+  obtain ⟨rfl, hp⟩ := step_snapshot_inv hsnap
+  obtain ⟨tm, hpc⟩ := isParked_iff.1 (hp hrunning)
+  have hB := reach_invB hr
+  refine ⟨rfl, ?_⟩
+  intro e he
+  obtain ⟨r, hr1, hr2⟩ := hB.next_ok (by simp [hpc, live]) e he
+  exact ⟨hB.prev_ok e he, r, hr1, hB.sid_ok e he r hr1, hr2⟩
+
+/-- `Prev` is reported faithfully also while the scheduler is stopped. -/
+theorem entries_prev_always (S : Scheds) (s : State) (hr : Reach S s) :
+    ∀ e ∈ snapshotOf s, e.prev = lastRunAct e.id s.log :=
+  (reach_invB hr).prev_ok
+
 /-- `restart_recomputes`: when a (re)started scheduler goroutine boots, every entry's `Next` is
-recomputed from the clock value read at that moment, `Prev` is kept, and the computation is
-recorded. -/
+recomputed from the clock value read at that moment, `Prev` is kept. -/
 theorem restart_recomputes (S : Scheds) (s s' : State) (h : step S s .boot = some s') :
     s'.now = s.clock ∧
     s'.entries = s.entries.map (fun e => { e with next := S e.sid s.clock }) ∧
@@ -23,5 +285,10 @@ theorem restart_recomputes (S : Scheds) (s s' : State) (h : step S s .boot = som
     obtain ⟨e, _, rfl⟩ := he'
     rfl
   · simp [Function.comp_def]
+
+example : ∃ s s' : State, Reach (fun _ t => t + 3) s ∧ step (fun _ t => t + 3) s .boot = some s' ∧
+    s.entries.map (·.next) = [16] ∧ s'.entries.map (·.next) = [43] ∧ s'.entries.map (·.prev) = [13] :=
+  ⟨_, _, reach_runFrom (Reach.init 10) [.add 0, .start, .boot, .arm, .advance 13, .wake, .arm,
+      .stop, .advance 40, .start] rfl, rfl, by decide, by decide, by decide⟩
 
 end Kit.CronSched.C05
